@@ -365,3 +365,109 @@ def affine_mapping(rng, es, part_p=0.5):
     if part:
         m["partitioning"] = {out: part}
     return m, kind, syms
+
+
+# ----------------------------------------------------------------------------
+# cascades (C05)
+# ----------------------------------------------------------------------------
+
+def gen_cascade(rng, n=None, part_p=0.4):
+    """2-4 Einsums chained through intermediates, each with its own mapping.
+    Returns (decl, exprs, mapping, syms, per_einsum) ."""
+    n = n or rng.randint(2, 4)
+    pool = ["A", "B", "C", "D", "E", "F", "G", "H", "I", "L", "P", "Q", "R", "S", "X", "Y",
+            "AA", "AB", "AC", "AD", "AE", "AF", "AG", "AH", "AI", "AJ"]
+    names = iter(pool)
+    outs = ["T", "U", "V", "W"][:n - 1] + ["Z"]
+    decl, exprs = {}, []
+    mapping = {"rank-order": {}, "loop-order": {}, "partitioning": {}}
+    syms = {}
+    per = []
+    prev = {}
+    for k in range(n):
+        nr = rng.randint(1, 3)
+        ranks = rng.sample(RANK_POOL, nr)
+        # try to read at least one previous output
+        usable = [t for t, rs in prev.items() if set(rs) <= set(ranks) or rng.random() < 0.5]
+        if prev and not usable:
+            usable = [rng.choice(list(prev))]
+        for t in usable:
+            for r in prev[t]:
+                if r not in ranks:
+                    ranks.append(r)
+        ranks = ranks[:4] if len(ranks) > 4 else ranks
+        usable = [t for t in usable if set(prev[t]) <= set(ranks)]
+        nterms = 1 if rng.random() < 0.75 else 2
+        terms = []
+        used_prev = set()
+        for ti in range(nterms):
+            nf = rng.randint(1, 2)
+            facs = []
+            if usable and (ti == 0 or rng.random() < 0.5):
+                cand = [t for t in usable if t not in used_prev]
+                if cand:
+                    t = rng.choice(cand)
+                    used_prev.add(t)
+                    facs.append((t, list(prev[t])))
+            while len(facs) < nf + (1 if facs and facs[0][0] in prev else 0) and len(facs) < 3:
+                k2 = rng.randint(1, len(ranks))
+                nm = next(names)
+                rs = rng.sample(ranks, k2)
+                decl[nm] = list(rs)
+                facs.append((nm, rs))
+            missing = [r for r in ranks if not any(r in f[1] for f in facs)]
+            if missing:
+                own = [f for f in facs if f[0] not in prev]
+                if not own:
+                    nm = next(names)
+                    decl[nm] = []
+                    own = [(nm, decl[nm])]
+                    facs.append(own[0])
+                for r in missing:
+                    f = rng.choice(own)
+                    f[1].append(r)
+                    decl[f[0]] = list(f[1])
+            rng.shuffle(facs)
+            terms.append(" * ".join(t + _idx(rs) for t, rs in facs))
+        o = outs[k]
+        orank = rng.sample(ranks, rng.randint(0 if k == n - 1 else 1, len(ranks)))
+        decl[o] = list(orank)
+        prev[o] = list(orank)
+        exprs.append(o + _idx(orank) + " = " + " + ".join(terms))
+        es = {"decl": {t: decl[t] for t in decl}, "out": o, "ranks": ranks}
+        # per-Einsum mapping
+        allr = list(orank) + [r for r in ranks if r not in orank]
+        if rng.random() < part_p:
+            pr = rng.choice(ranks)
+            depth = rng.choice([1, 1, 2])
+            ds, s = gen_shape_stack(rng, pr, depth, sym_p=0.2)
+            ds = [d.replace(pr + "WS", o + pr + "WS").replace(pr + "US", o + pr + "US") for d in ds]
+            s = {k_.replace(pr + "WS", o + pr + "WS").replace(pr + "US", o + pr + "US"): v for k_, v in s.items()}
+            syms.update(s)
+            mapping["partitioning"][o] = {pr: ds}
+            loop = []
+            for r in allr:
+                loop.extend(levels_of(r, depth) if r == pr else [r])
+            keyed = sorted(range(len(loop)), key=lambda i: rng.random())
+            # well-ordered interleaving
+            pos = sorted(keyed[:depth + 1])
+            lv = levels_of(pr, depth)
+            rest = [x for x in loop if x not in lv]
+            rng.shuffle(rest)
+            new, ri, li = [], 0, 0
+            for i in range(len(loop)):
+                if i in pos:
+                    new.append(lv[li]); li += 1
+                else:
+                    new.append(rest[ri]); ri += 1
+            mapping["loop-order"][o] = new
+        elif rng.random() < 0.8:
+            rng.shuffle(allr)
+            mapping["loop-order"][o] = allr
+        per.append({"out": o, "ranks": ranks})
+    for t, rs in decl.items():
+        if len(rs) > 1 and rng.random() < 0.5:
+            p = list(rs)
+            rng.shuffle(p)
+            mapping["rank-order"][t] = p
+    return decl, exprs, mapping, syms, per
